@@ -249,3 +249,42 @@ func H_C19_Signatures() {
 		nd.Assert(aerr == nil && len(arem) == 0, "sig/frombytes-accepts-only-exact")
 	}
 }
+
+// H_C19_BuilderSequences: a builder that is reused or reconfigured agrees with the direct constructor for its LAST configuration (key types set twice; payload then key types; key types then payload).
+//
+//verif:props C19
+//verif:witness both-accepted
+func H_C19_BuilderSequences() {
+	known := []int{0, 1, 7, 11}
+	s1, s2 := known[nd.IntRange(0, 3)], known[nd.IntRange(0, 3)]
+	c1, c2 := []int{0, 4}[nd.IntRange(0, 1)], []int{0, 4}[nd.IntRange(0, 1)]
+	pl2, perr := certificate.BuildKeyTypePayload(s2, c2)
+	nd.Assume(perr == nil)
+	want, werr := certificate.NewCertificateWithType(5, pl2)
+	nd.Assume(werr == nil)
+	b := certificate.NewCertificateBuilder()
+	switch nd.IntRange(0, 2) {
+	case 0:
+		_, e1 := b.WithKeyTypes(s1, c1)
+		nd.Assume(e1 == nil)
+		first, ferr := b.Build()
+		nd.Assume(ferr == nil && first != nil)
+		_, e2 := b.WithKeyTypes(s2, c2)
+		nd.Assume(e2 == nil)
+	case 1:
+		b.WithPayload(nd.Bytes(nd.IntRange(0, 5)))
+		_, e2 := b.WithKeyTypes(s2, c2)
+		nd.Assume(e2 == nil)
+	case 2:
+		_, e1 := b.WithKeyTypes(s1, c1)
+		nd.Assume(e1 == nil)
+		_, e2 := b.WithKeyTypes(s2, c2)
+		nd.Assume(e2 == nil)
+	}
+	got, gerr := b.Build()
+	nd.Assert(gerr == nil && got != nil, "builder-seq/builds")
+	if gerr == nil && got != nil {
+		nd.Cover("both-accepted")
+		nd.Assert(bytes.Equal(got.Bytes(), want.Bytes()), "builder-seq/last-configuration-wins-like-direct-constructor")
+	}
+}
